@@ -244,6 +244,17 @@ def rule_config_preserved(ctx, R="C19/config-preserved", only=None):
         for fld, kinds in d.items():
             if kinds & {"write", "partialwrite", "mutborrow"}:
                 config.setdefault(fld, set()).add(fn.split("::")[-1])
+    # ... and the fields `new()` fills from its arguments (process_id, blamed_thread): they have no setter, the caller configures them once
+    try:
+        from engine.summ import return_origins as _ro
+        for e in _ro(prog, MW + "::new") or []:
+            e = strip(e)
+            if e[0] == "agg":
+                for fld, v in e[3]:
+                    if any(q[0] == "param" for q in walk(v)):
+                        config.setdefault(fld, set()).add("new")
+    except Exception:
+        pass
     ctx.analysed["configuration_fields"] = {k: sorted(v) for k, v in sorted(config.items())}
     ctx.floor(R, "configuration fields (stored by setters outside dump)", len(config), 6)
     # whole-object stores (`*self = Self { .. }`) inside a dump: every configuration field must be carried over from itself
